@@ -113,12 +113,15 @@ pub fn case<G: CurveTag>(bytes: &[u8], col: &mut Collector, cmax: usize) -> Resu
     let c0 = ch.below(cmax + 1);
     let nsteps = ch.below(7);
     let mut steps = vec![];
+    let mut top = c0;
     for _ in 0..nsteps {
-        let c = match ch.below(4) {
+        let c = match ch.below(5) {
             0 => steps.last().copied().unwrap_or(c0), // repeated value
             1 => ch.below(c0 + 1),                     // not larger
+            2 => (top + 1 + ch.below(8)).min(cmax.max(top)), // a little beyond everything so far
             _ => ch.below(cmax + 1),
         };
+        top = top.max(c);
         steps.push(c);
     }
     let roundtrip_at = if ch.chance(90) { Some(ch.below(nsteps + 1)) } else { None };
@@ -356,7 +359,7 @@ pub fn run(tier: &str, seed: u64) -> i32 {
         rep.outcome.merge(search(&sub, seed, n, 64, &|b, col| dispatch(&sub, b, col)));
     }
     for c in ["real-increase", "several-increases", "non-increasing-step", "serialization-roundtrip", "parties=3"] {
-        rep.required_classes.push((c.to_string(), 0.02));
+        rep.required_classes.push((c.to_string(), 0.01));
     }
     rep.finish()
 }
